@@ -296,6 +296,13 @@ async fn round(
                 Err(e) => {
                     g.ev(format!("{label} publish => Err({})", err_class(&e)));
                     g.probe("publish_failed");
+                    if std::env::var("W6_MUTANT").as_deref() == Ok("commit_without_quorum") {
+                        // sensitivity experiment only: an importer that commits although the
+                        // publish did not reach a quorum
+                        g.commit_block(r, block, "produced-MUTANT");
+                        *last_height = next;
+                        return;
+                    }
                     drop(g);
                     // MainTask::handle_normal_block_production: release on production error
                     let res = adapter.release().await;
@@ -486,7 +493,11 @@ fn draw_cfg(tape: &mut Tape, tier: Tier) -> (Cfg, u64, bool) {
     };
     let quorum = (n_nodes / 2 + 1 + budget as usize).min(n_nodes);
     let lease_ttl_ms = [3000u64, 2000, 5000][tape.below(3)];
-    let node_timeout_ms = 1000;
+    // The adapter's node_timeout bounds the blocking client's socket reads in REAL time (the
+    // simulated node answers within microseconds, but the host may be overloaded) and, in
+    // simulated time, connection attempts (capped at 1s by redis-rs) and requests (redis-rs'
+    // own 500ms response timeout fires first). 10s keeps real time out of the picture.
+    let node_timeout_ms = 10_000;
     let retry_delay_ms = [200u64, 50][tape.below(2)];
     let max_attempts = 1 + tape.choose(3) as u32;
     // mostly an effectively unbounded stream; a small window scales "replica lags by more than
@@ -1133,8 +1144,8 @@ impl simkit::World for HaWorld {
     }
     fn default_runs(&self, _prop: &str, tier: Tier) -> u64 {
         match tier {
-            Tier::Quick => 700,
-            Tier::Thorough => 20_000,
+            Tier::Quick => 600,
+            Tier::Thorough => 10_000,
         }
     }
     fn nontrivial_min_ops(&self, _prop: &str) -> u64 {
